@@ -220,6 +220,9 @@ PROPS["C13"] = {
 
 def nt_c07(lhs, impl):
     f = lhs.split(" ")
+    if f[0] == "armor":
+        d = _hexbytes(f[1])
+        return ("armor", impl.split(" ")[0], d.count(b"\n") // 3, b"\r" in d, b"\n=" in d, bytes(d[:16]).hex())
     name = _hexbytes(f[1]).decode("latin1")
     data = _hexbytes(f[2])
     ncls = "reserved" if name.split("/")[-1] in ("authorized_keys", "known_hosts") else ("near" if "authorized_keys" in name or "known_hosts" in name else "other")
